@@ -124,6 +124,13 @@ def engine_case(rng):
         if kind != "frx":
             q = rng.choice(["", "", "'", "'", "^", "!", "'^", "!'"]) + q + rng.choice(["", "", "$"])
         return "e;%s;%s;%s;%s|" % (opt(rtiebreak(rng)), kind, enc(q), enc(text))
+    if rng.random() < 0.25 and len(text) >= 2:
+        # the item limits matching to a range that starts at its middle character (as --nth does): begin / end of the key are
+        # positions in the ITEM, not in the range
+        tail = text[len(text) // 2:]
+        i = rng.randrange(len(tail))
+        q = tail[i:i + rng.randint(1, 3)] if rng.random() < 0.8 else q
+        return "e;%s;%s@;%s;%s|" % (opt(rtiebreak(rng)), rng.choice(["exact", "regex", "fuzzy", "fuzzy"]), enc(q), enc(text))
     return "e;%s;%s;%s;%s|" % (opt(rtiebreak(rng)), rng.choice(ENGINES), enc(q), enc(text))
 
 
